@@ -75,9 +75,9 @@ theorem shadow_inv_partial (cfg : Cfg) (toplevel : Bool) (m0 : VModes) (ops : Li
   have h := after_inv cfg toplevel m0 ops .running hm0 hv hnt
   exact modesShown_of cfg _ _ _ (h.shown rfl) h.ghost
 
-theorem shadow_inv (cfg : Cfg) (hk : cfg.keypadRecorded = true) (hr : cfg.repliesGuarded = true) : ShadowInv cfg :=
+theorem shadow_inv (cfg : Cfg) (hk : cfg.keypadRecorded = true) (hr : cfg.repliesGuarded = true) (hq : cfg.rgb8Guarded = true) : ShadowInv cfg :=
   fun toplevel m0 ops hm0 hv =>
-    shadow_inv_partial cfg toplevel m0 ops hm0 hv (triggerFree_of_repaired cfg hk hr toplevel ops)
+    shadow_inv_partial cfg toplevel m0 ops hm0 hv (triggerFree_of_repaired cfg hk hr hq toplevel ops)
 
 /-- **resume_reestablishes.** A pause/resume cycle appended to a history that left the terminal running
     ends with the terminal's modes equal to the values last set before the pause: resume re-establishes
@@ -99,10 +99,10 @@ theorem resume_reestablishes_partial (cfg : Cfg) (toplevel : Bool) (m0 : VModes)
     unfold ghostAfter; rw [ghostRun_append]; rfl
   rwa [hg] at h
 
-theorem resume_reestablishes (cfg : Cfg) (hk : cfg.keypadRecorded = true) (hr : cfg.repliesGuarded = true) :
+theorem resume_reestablishes (cfg : Cfg) (hk : cfg.keypadRecorded = true) (hr : cfg.repliesGuarded = true) (hq : cfg.rgb8Guarded = true) :
     ResumeReestablishes cfg :=
   fun toplevel m0 ops hm0 hv =>
-    resume_reestablishes_partial cfg toplevel m0 ops hm0 hv (triggerFree_of_repaired cfg hk hr toplevel ops)
+    resume_reestablishes_partial cfg toplevel m0 ops hm0 hv (triggerFree_of_repaired cfg hk hr hq toplevel ops)
 
 /-! ### `teardown_restores` -/
 
@@ -128,10 +128,10 @@ theorem teardown_restores_partial (cfg : Cfg) (toplevel : Bool) (m0 : VModes) (o
   · obtain ⟨ho, ha⟩ := destroy_off cfg _ _ ph _ h
     exact restoredOk_of _ m0 h0 ho ha
 
-theorem teardown_restores (cfg : Cfg) (hk : cfg.keypadRecorded = true) (hr : cfg.repliesGuarded = true) :
+theorem teardown_restores (cfg : Cfg) (hk : cfg.keypadRecorded = true) (hr : cfg.repliesGuarded = true) (hq : cfg.rgb8Guarded = true) :
     TeardownRestores cfg :=
   fun toplevel m0 ops ph hm0 hv =>
-    teardown_restores_partial cfg toplevel m0 ops ph hm0 hv (triggerFree_of_repaired cfg hk hr toplevel ops)
+    teardown_restores_partial cfg toplevel m0 ops ph hm0 hv (triggerFree_of_repaired cfg hk hr hq toplevel ops)
 
 /-! ### `getctl_last_set` -/
 
@@ -146,9 +146,9 @@ theorem getctl_last_set_partial (cfg : Cfg) (toplevel : Bool) (ops : List Op) (p
     getctlOk (sysAfter cfg toplevel ops).term.drv (ghostAfter cfg toplevel ops) = true :=
   getctlOk_of cfg _ _ (after_inv cfg toplevel {} ops ph rfl hv hnt).ghost
 
-theorem getctl_last_set (cfg : Cfg) (hk : cfg.keypadRecorded = true) (hr : cfg.repliesGuarded = true) :
+theorem getctl_last_set (cfg : Cfg) (hk : cfg.keypadRecorded = true) (hr : cfg.repliesGuarded = true) (hq : cfg.rgb8Guarded = true) :
     GetctlLastSet cfg :=
-  fun toplevel ops ph hv => getctl_last_set_partial cfg toplevel ops ph hv (triggerFree_of_repaired cfg hk hr toplevel ops)
+  fun toplevel ops ph hv => getctl_last_set_partial cfg toplevel ops ph hv (triggerFree_of_repaired cfg hk hr hq toplevel ops)
 
 /-! ### the unrepaired tree: counterexamples (the hypotheses above are necessary) -/
 
@@ -157,60 +157,83 @@ theorem getctl_last_set (cfg : Cfg) (hk : cfg.keypadRecorded = true) (hr : cfg.r
 def keypadHistory : List Op := [.ctl (some .keypadApp) 1]
 
 set_option maxRecDepth 8000 in
-theorem teardown_restores_counterexample_keypad (p u r : Bool) : ¬ TeardownRestores ⟨false, p, u, r⟩ := by
+theorem teardown_restores_counterexample_keypad (p u r q : Bool) : ¬ TeardownRestores ⟨false, p, u, r, q⟩ := by
   intro h
   have h1 := (h false {} keypadHistory .running rfl rfl).2
   revert h1
-  cases p <;> cases u <;> cases r <;> decide
+  cases p <;> cases u <;> cases r <;> cases q <;> decide
 
 set_option maxRecDepth 8000 in
 /-- … and through the toplevel instance: `tick; unref` (what `t/60tickit-setup.c` pins). -/
-theorem teardown_restores_counterexample_setup (p u r : Bool) : ¬ TeardownRestores ⟨false, p, u, r⟩ := by
+theorem teardown_restores_counterexample_setup (p u r q : Bool) : ¬ TeardownRestores ⟨false, p, u, r, q⟩ := by
   intro h
   have h1 := (h true {} [.tick false] .running rfl rfl).2
   revert h1
-  cases p <;> cases u <;> cases r <;> decide
+  cases p <;> cases u <;> cases r <;> cases q <;> decide
 
 set_option maxRecDepth 8000 in
-theorem getctl_last_set_counterexample_keypad (p u r : Bool) : ¬ GetctlLastSet ⟨false, p, u, r⟩ := by
+theorem getctl_last_set_counterexample_keypad (p u r q : Bool) : ¬ GetctlLastSet ⟨false, p, u, r, q⟩ := by
   intro h
   have h1 := h false keypadHistory .running rfl
   revert h1
-  cases p <;> cases u <;> cases r <;> decide
+  cases p <;> cases u <;> cases r <;> cases q <;> decide
 
 /-- Replies not guarded: `ctl cursorvis 0; <DECRPM ?25;1$y arrives>; unref` leaves the cursor hidden,
     and the control reads 1 after 0 was set. -/
 def lateReplyHistory : List Op := [.ctl (some .cursorvis) 0, .replyMode 25 1]
 
 set_option maxRecDepth 8000 in
-theorem teardown_restores_counterexample_late_reply (k p u : Bool) : ¬ TeardownRestores ⟨k, p, u, false⟩ := by
+theorem teardown_restores_counterexample_late_reply (k p u q : Bool) : ¬ TeardownRestores ⟨k, p, u, false, q⟩ := by
   intro h
   have h1 := (h false {} lateReplyHistory .running rfl rfl).2
   revert h1
-  cases k <;> cases p <;> cases u <;> decide
+  cases k <;> cases p <;> cases u <;> cases q <;> decide
 
 set_option maxRecDepth 8000 in
 /-- After the late reply the shadow says "visible" while the terminal's cursor is hidden: the next
     `ctl cursorvis 1` is taken for redundant and writes nothing, so the terminal and the value last set differ
     while running. -/
-theorem shadow_inv_counterexample_late_reply (k p u : Bool) : ¬ ShadowInv ⟨k, p, u, false⟩ := by
+theorem shadow_inv_counterexample_late_reply (k p u q : Bool) : ¬ ShadowInv ⟨k, p, u, false, q⟩ := by
   intro h
   have h1 := h false {} (lateReplyHistory ++ [.ctl (some .cursorvis) 1]) rfl rfl
   revert h1
-  cases k <;> cases p <;> cases u <;> decide
+  cases k <;> cases p <;> cases u <;> cases q <;> decide
 
 set_option maxRecDepth 8000 in
-theorem getctl_last_set_counterexample_late_reply (k p u : Bool) : ¬ GetctlLastSet ⟨k, p, u, false⟩ := by
+theorem getctl_last_set_counterexample_late_reply (k p u q : Bool) : ¬ GetctlLastSet ⟨k, p, u, false, q⟩ := by
   intro h
   have h1 := h false lateReplyHistory .running rfl
   revert h1
-  cases k <;> cases p <;> cases u <;> decide
+  cases k <;> cases p <;> cases u <;> cases q <;> decide
+
+/-- Forced RGB8 capability not guarded (the working tree as found): the program switches 24-bit colours off
+    through `xterm.cap_rgb8` ("the calling program has a better idea than our probing"), then the terminal's
+    answer to the start-up SGR query arrives and switches them on again; the control reads 1 after 0 was set. -/
+def forcedRgb8History : List Op := [.ctl (some .capRgb8) 0, .replySgr false true]
+
+set_option maxRecDepth 8000 in
+theorem getctl_last_set_counterexample_forced_rgb8 (k p u r : Bool) : ¬ GetctlLastSet ⟨k, p, u, r, false⟩ := by
+  intro h
+  have h1 := h false forcedRgb8History .running rfl
+  revert h1
+  cases k <;> cases p <;> cases u <;> cases r <;> decide
+
+example : validFrom .running forcedRgb8History = some .running ∧
+    ¬ TriggerFree ⟨true, true, true, true, false⟩ false forcedRgb8History ∧
+    TriggerFree ⟨true, true, true, true, true⟩ false forcedRgb8History := by decide
+
+/-- **forced_rgb8_survives_late_reply.** With the guard, whatever the driver's state: the capability the
+    program has forced is what the control reads after the terminal's SGR report has arrived. -/
+theorem forced_rgb8_survives_late_reply (cfg : Cfg) (hq : cfg.rgb8Guarded = true) (d : XDrv) (v : Int) (colon rgb : Bool) :
+    getctlInt (onDecrqssSgr cfg (setctlInt cfg d (some .capRgb8) v).1 colon rgb) (some .capRgb8) = some (bool01 v) := by
+  have hw : ((wrapU ModeLayout.w_cap_rgb8 (bool01 v) : Nat) : Int) = bool01 v := wrapU1_bool_int v
+  simp [setctlInt, onDecrqssSgr, getctlInt, hq, hw]
 
 /-- The triggers are exactly what the partial theorems exclude: both counterexample histories are
     inside the contract and are *not* trigger-free for the unrepaired variants. -/
-example : validFrom .running keypadHistory = some .running ∧ ¬ TriggerFree ⟨false, true, true, true⟩ false keypadHistory := by
+example : validFrom .running keypadHistory = some .running ∧ ¬ TriggerFree ⟨false, true, true, true, true⟩ false keypadHistory := by
   decide
-example : validFrom .running lateReplyHistory = some .running ∧ ¬ TriggerFree ⟨true, true, true, false⟩ false lateReplyHistory := by
+example : validFrom .running lateReplyHistory = some .running ∧ ¬ TriggerFree ⟨true, true, true, false, true⟩ false lateReplyHistory := by
   decide
 
 /-! ### non-vacuity: a non-trivial history inside the contract, for both kinds of terminal -/
@@ -234,14 +257,14 @@ example : (vtAfter Cfg.repaired false {} sampleHistory).modes.mouse = 1003 ∧
 
 /-- … and the theorems apply to it. -/
 example : modesShown (vtAfter Cfg.repaired false {} sampleHistory).modes (ghostAfter Cfg.repaired false sampleHistory) = true :=
-  shadow_inv Cfg.repaired rfl rfl false {} sampleHistory rfl (by decide)
+  shadow_inv Cfg.repaired rfl rfl rfl false {} sampleHistory rfl (by decide)
 example : restoredOk (VT.feed (vtAfter Cfg.repaired true {} sampleHistory) (sysAfter Cfg.repaired true sampleHistory).destroy) {} = true :=
-  (teardown_restores Cfg.repaired rfl rfl true {} sampleHistory .running rfl (by decide)).2
+  (teardown_restores Cfg.repaired rfl rfl rfl true {} sampleHistory .running rfl (by decide)).2
 example : getctlOk (sysAfter Cfg.repaired false sampleHistory).term.drv (ghostAfter Cfg.repaired false sampleHistory) = true :=
-  getctl_last_set Cfg.repaired rfl rfl false sampleHistory .running (by decide)
+  getctl_last_set Cfg.repaired rfl rfl rfl false sampleHistory .running (by decide)
 /-- The partial theorems are not vacuous on the tree as found: a history with mouse, cursor and
     alternate screen but no keypad and prompt replies is trigger-free. -/
-example : TriggerFree ⟨false, false, false, false⟩ false
+example : TriggerFree ⟨false, false, false, false, false⟩ false
     [.replyMode 25 1, .ctl (some .altscreen) 1, .ctl (some .cursorvis) 0, .ctl (some .mouse) 1, .pause, .resume] := by decide
 
 /-! ### `pen_survives_pause` -/
@@ -279,19 +302,19 @@ theorem cached_pen_is_logical (cfg : Cfg) (toplevel : Bool) (m0 : VModes) (ops :
 def pausePenHistory : List Op := [.setpen (fun a => if a = .bold then some 1 else none), .pause, .resume]
 
 set_option maxRecDepth 8000 in
-theorem pen_survives_pause_counterexample (k u r : Bool) : ¬ PenSurvivesPause ⟨k, false, u, r⟩ := by
+theorem pen_survives_pause_counterexample (k u r q : Bool) : ¬ PenSurvivesPause ⟨k, false, u, r, q⟩ := by
   intro h
-  have h1 := h false {} pausePenHistory rfl (by cases k <;> cases u <;> cases r <;> decide)
+  have h1 := h false {} pausePenHistory rfl (by cases k <;> cases u <;> cases r <;> cases q <;> decide)
   revert h1
-  cases k <;> cases u <;> cases r <;> decide
+  cases k <;> cases u <;> cases r <;> cases q <;> decide
 
 set_option maxRecDepth 8000 in
 /-- … and the next `setpen bold` indeed emits no byte on the unrepaired variant. -/
 theorem pause_pen_next_setpen_silent :
-    ((sysAfter ⟨true, false, true, true⟩ false pausePenHistory).step ⟨true, false, true, true⟩
+    ((sysAfter ⟨true, false, true, true, true⟩ false pausePenHistory).step ⟨true, false, true, true, true⟩
       (.setpen (fun a => if a = .bold then some 1 else none))).out = [] := by decide
 
-example : validFrom .running pausePenHistory = some .running ∧ ¬ PenTriggerFree ⟨true, false, true, true⟩ false pausePenHistory := by
+example : validFrom .running pausePenHistory = some .running ∧ ¬ PenTriggerFree ⟨true, false, true, true, true⟩ false pausePenHistory := by
   decide
 
 set_option maxRecDepth 8000 in
@@ -306,7 +329,7 @@ example : (vtAfter Cfg.repaired false {} sampleHistory).attrs .bold = 1 ∧
 
 /-- The partial theorem is not vacuous on the tree as found: pens with pause/resume are fine as long as the
     pen cached at resume is a default one. -/
-example : PenTriggerFree ⟨false, false, false, false⟩ false
+example : PenTriggerFree ⟨false, false, false, false, false⟩ false
     [.setpen (fun a => if a = .bold then some 1 else none), .setpen PenMap.empty, .pause, .resume,
      .setpen (fun a => if a = .bold then some 1 else none)] := by decide
 
@@ -380,12 +403,12 @@ theorem nothing_pending_after_pause (cfg : Cfg) (toplevel : Bool) (cap : Nat) (o
 
 /-- **teardown_restores_buffered.** … so the terminal, reading only what has been delivered at that moment, is
     back in the modes it started in with the default rendition. -/
-theorem teardown_restores_buffered (cfg : Cfg) (hk : cfg.keypadRecorded = true) (hr : cfg.repliesGuarded = true)
+theorem teardown_restores_buffered (cfg : Cfg) (hk : cfg.keypadRecorded = true) (hr : cfg.repliesGuarded = true) (hq : cfg.rgb8Guarded = true)
     (toplevel : Bool) (m0 : VModes) (cap : Nat) (ops : List Op) (ph : Phase) (hm0 : m0.standard = true)
     (hv : validFrom .running ops = some ph) (hne : ph ≠ .running) :
     restoredOk (VT.feed ⟨.ground, m0, Attrs.default⟩ (deliveredAfter cfg toplevel cap ops)) m0 = true := by
   rw [(nothing_pending_after_pause cfg toplevel cap ops ph hv hne).2, feed_append]
-  exact (teardown_restores cfg hk hr toplevel m0 ops ph hm0 hv).1 hne
+  exact (teardown_restores cfg hk hr hq toplevel m0 ops ph hm0 hv).1 hne
 
 theorem teardown_restores_buffered_partial (cfg : Cfg) (toplevel : Bool) (m0 : VModes) (cap : Nat) (ops : List Op) (ph : Phase)
     (hm0 : m0.standard = true) (hv : validFrom .running ops = some ph) (hne : ph ≠ .running)
@@ -418,11 +441,11 @@ theorem destroy_shared_restores_partial (cfg : Cfg) (m0 : VModes) (ops : List Op
   rw [dropOwner_top _ extra ht]
   exact (teardown_restores_partial cfg true m0 ops ph hm0 hv hnt).2
 
-theorem destroy_shared_restores (cfg : Cfg) (hk : cfg.keypadRecorded = true) (hr : cfg.repliesGuarded = true)
+theorem destroy_shared_restores (cfg : Cfg) (hk : cfg.keypadRecorded = true) (hr : cfg.repliesGuarded = true) (hq : cfg.rgb8Guarded = true)
     (m0 : VModes) (ops : List Op) (ph : Phase) (extra : Nat) (hm0 : m0.standard = true)
     (hv : validFrom .running ops = some ph) :
     restoredOk (VT.feed (vtAfter cfg true m0 ops) ((sysAfter cfg true ops).dropOwner extra).2) m0 = true :=
-  destroy_shared_restores_partial cfg m0 ops ph extra hm0 hv (triggerFree_of_repaired cfg hk hr true ops)
+  destroy_shared_restores_partial cfg m0 ops ph extra hm0 hv (triggerFree_of_repaired cfg hk hr hq true ops)
 
 /-- The terminal that survives is torn down; dropping its last reference later writes nothing more. -/
 theorem shared_terminal_left_torn_down (cfg : Cfg) (ops : List Op) (extra : Nat) (left : Sys)
